@@ -31,6 +31,21 @@ CHECKS["C05"] = (
     "DESIGN.md section 5 C05",
 )
 
+CHECKS["C01"] = (
+    "exploration",
+    "differential reference monitor: generated special-form programs compiled and run by the real compiler (6 syntactic contexts x 8 option sets, special forms and macros, importer path) vs an independent reference evaluator; defect-model evaluators separate recorded findings from new violations",
+    "Held (apart from recorded findings) on every generated program executed: exhaustive small programs (<=4, thorough <=5 nodes) plus thousands of random typed programs with loops, escaping closures, try/catch/finally, letfn, def, interop, unsafe names. Exploration: programs are unbounded; only executions produced are judged.",
+    "Trusted: vf/progs.py Ref evaluator as the semantics of the fragment; results containing functions compared up to :fn; fn parameters are kept munge-distinct in the bulk generator (munge collisions are a recorded finding exercised separately).",
+    "DESIGN.md section 5 C01",
+)
+CHECKS["C02"] = (
+    "exploration",
+    "runtime effect-trace monitor: tracer calls recorded while compiled programs run, compared with the reference evaluator's effect trace (multiset then order); container x position x compound table, random programs, all :inline core Vars with traced arguments",
+    "Held (apart from recorded findings: hoisted dependencies, textual auto-inlining of 6 core fns) on the full container/position/compound table (19 containers x 4 positions x 11 compounds x 3 option sets), random and exhaustive small programs, and every inline core Var. Exploration.",
+    "Trusted: the reference evaluator's left-to-right exactly-once trace; for map/set literals only the multiset of effects is judged; a call that raises on ill-typed arguments is only required to show an in-order prefix.",
+    "DESIGN.md section 5 C02",
+)
+
 NOT_BUILT ="check not built yet in this session (design in DESIGN.md section 5); not claimed until its monitor exists and is quiet on the unchanged tree"
 
 
